@@ -10,7 +10,9 @@ Enumerated per site: **every** raw value the 8/16-bit wire type can hold, throug
 (b) the wire path (``BufferReader.read(spec)`` of the packed raw value, ``BufferWriter.write(spec, value)``), in both
 byte orders.  Context-dependent ranges (a QuantizedFloatBase subclass without its own lower/upper: QuantizedTime, range
 [0, root.duration]) are swept for every raw value x a list of f32-exact durations (boundary list + powers of two x
-mantissas; quick = every 16th exponent x 2 mantissas, thorough = every exponent x 4 mantissas).  The vectorised
+mantissas; quick = every 16th exponent x 2 mantissas, thorough = every exponent x 4 mantissas); in addition the end and
+middle raw values are evaluated (endpoint + inverse clauses, both modes, both tiers) for a dense duration list: every 1/8 s up
+to 64 s, every whole second up to 600 s, every F32 with <= 8 mantissa bits in [2^-6, 2^9] (2,271 durations).  The vectorised
 QuantizedNumPyArray is evaluated on the full ``arange`` of its dtype.
 
 Reader modes: every clause below is evaluated twice per site -- ``pod=False`` and ``pod=True`` (``decode(raw, ctx, pod)``
@@ -77,6 +79,20 @@ def durations(tier: str) -> List[float]:
             if d not in out:
                 out.append(d)
     return out
+
+
+def end_durations() -> List[float]:
+    """Dense, cheap duration list for the clauses that need only the end raw values (same in quick and thorough):
+    every multiple of 1/8 s up to 64 s, every whole second up to 600 s, every F32 with <= 8 significant mantissa bits in
+    [2**-6, 2**9], plus the boundary list."""
+    out = {d for d in BASE_DURATIONS if d > 0.0}
+    out.update(k / 8.0 for k in range(1, 64 * 8 + 1))
+    out.update(float(k) for k in range(1, 601))
+    for e in range(-6, 9):
+        for m in range(128, 256):
+            out.add(math.ldexp(m / 128.0, e))
+    out.add(512.0)
+    return sorted(f32(d) for d in out)
 
 
 class Inst:
@@ -449,6 +465,50 @@ def eval_scalar(part, inst: Inst, duration: Optional[float] = None, wire: bool =
     del root
 
 
+def eval_ends(part, inst: Inst, durs: List[float], pod: bool = False):
+    """Context-dependent range: endpoint clause (and inverse at the end raws + the middle raw) for many durations."""
+    o = inst.obj
+    site = inst.site
+    fmt = params(o)["fmt"]
+    wname, lo_raw, hi_raw = WIRE[fmt]
+    mid_raw = (lo_raw + hi_raw + 1) // 2
+    st = struct.Struct("<" + fmt)
+    n_ok = 0
+    for d in durs:
+        root, ctx = _make_ctx(d)
+        part.count("evaluations", 3)
+        part.count("endpoint_duration_evaluations", 3)
+        for raw, want in ((lo_raw, 0.0), (hi_raw, d), (mid_raw, None)):
+            w = {"site": site, "raw": raw, "path": "direct", "duration": d}
+            try:
+                f = o.decode(raw, ctx, pod)
+                r = o.encode(f, ctx)
+            except Exception as e:
+                part.violation("inverse", site, w, f"duration {d!r}: decode/encode of raw {raw} raised {e!r}")
+                continue
+            if want is not None and not (type(f) is float and f == want):
+                which = "min" if raw == lo_raw else "max"
+                part.violation("endpoint", site, w, f"duration {d!r}: decode({which} raw {raw}) = {f!r}, declared "
+                                                    f"{'lower' if raw == lo_raw else 'upper'} end {want!r}")
+            elif want is not None:
+                n_ok += 1
+            if r != raw:
+                part.violation("inverse", site, w, f"duration {d!r}: decode({raw}) = {f!r} re-encodes to {r!r}")
+            data = st.pack(raw)
+            try:
+                val = se.BufferReader("<", data, pod).read(o, ctx=ctx)
+                wr = se.BufferWriter("<")
+                wr.write(o, val, ctx=ctx)
+                if bytes(wr.buffer) != data:
+                    part.violation("inverse", site, dict(w, path="wire<"), f"duration {d!r}: wire bytes {data.hex()} read as {val!r} are "
+                                                                          f"written back as {bytes(wr.buffer).hex()}")
+            except Exception as e:
+                part.violation("inverse", site, dict(w, path="wire<"), f"duration {d!r}: wire read/write of raw {raw} raised {e!r}")
+        part.mark_nontrivial(((site, d, pod), "end", hi_raw))
+        del root
+    part.outcome(((site, "ends", pod), n_ok == 2 * len(durs)))
+
+
 def eval_fixed(part, inst: Inst, pod: bool = False):
     o = inst.obj
     site = inst.site
@@ -742,7 +802,9 @@ def _eval_both_modes(part, inst: Inst, duration, wire: bool):
     skip = None
     for pod in (False, True):
         mp = ModePart(part, pod, skip)
-        if inst.kind in ("qfloat", "qctx"):
+        if isinstance(duration, (tuple, list)):  # ("ends", [durations]): dense endpoint sweep of a context-dependent range
+            eval_ends(mp, inst, list(duration[1]), pod)
+        elif inst.kind in ("qfloat", "qctx"):
             eval_scalar(mp, inst, duration, wire, pod)
         elif inst.kind == "fixed":
             eval_fixed(mp, inst, pod)
@@ -773,6 +835,7 @@ def run(run: Run):
     if len(_INSTS) < 5:
         raise HarnessError(f"object walk found only {len(_INSTS)} quantiser parameterisations")
     durs = durations(run.tier)
+    n_end_durs = 0
     units = []
     listing = []
     for idx, inst in enumerate(_INSTS):
@@ -788,10 +851,14 @@ def run(run: Run):
                 continue
             for d in durs:
                 units.append((idx, d, d in BASE_DURATIONS))
+            ends = end_durations()
+            n_end_durs = len(ends)
+            for k in range(0, len(ends), 250):
+                units.append((idx, ("ends", tuple(ends[k:k + 250])), False))
         else:
             units.append((idx, None, True))
     # longest units first
-    units.sort(key=lambda u: (0 if u[2] else 1, u[0]))
+    units.sort(key=lambda u: (0 if u[2] else 1, u[0], repr(u[1])))
     for d in pmap(_eval_unit, units, run.jobs, chunksize=1):
         run.merge(d)
     for i in _INSTS[:2] + [x for x in _INSTS if x.kind not in ("qfloat", "tuple")][:2] + [x for x in _INSTS if x.kind == "tuple"][:2]:
@@ -802,7 +869,8 @@ def run(run: Run):
                 f"= {len(scal)} distinct parameterisations, and {sum(i.n for i in wrap)} vector wrappers around them = {len(wrap)} distinct; each swept "
                 "over every raw value of its wire type in BOTH reader modes (pod=False and pod=True: decode(raw, ctx, pod) -> encode, and the "
                 f"BufferReader(pod)/BufferWriter path in both byte orders; wrappers: wire path, {'both byte orders' if _THOROUGH else 'little-endian'}); "
-                f"context-dependent ranges x {len(durs)} f32-exact durations. distinct_nontrivial = per (site, duration, mode): the two end raw "
+                f"context-dependent ranges: all raws x {len(durs)} f32-exact durations, plus the end and middle raws x {n_end_durs} durations "
+                "(every 1/8 s to 64 s, every second to 600 s, every F32 with <= 8 mantissa bits in [2^-6, 2^9]; endpoint + inverse clauses). distinct_nontrivial = per (site, duration, mode): the two end raw "
                 "values and every raw value that decodes to +-0.0 (the zero-preserving path)")
     run.assumptions += [
         "sites are parameterisations (class, wire type, lower, upper, rounding mode, step) found by walking live objects; a quantiser only "
@@ -827,7 +895,7 @@ def run(run: Run):
                          "derived from behaviour make the endpoint clause vacuous for those parameters")
     run.coverage_extra.update({"instances_found": sum(i.n for i in scal), "distinct_parameterisations": len(scal),
                                "wrapper_instances_found": sum(i.n for i in wrap), "distinct_wrappers": len(wrap),
-                               "sites": listing, "durations": len(durs), "units": len(units),
+                               "sites": listing, "durations": len(durs), "endpoint_durations": n_end_durs, "units": len(units),
                                "failing_evaluations": {k[8:]: n for k, n in sorted(run.counters.items()) if k.startswith("failing:")}})
 
 
@@ -842,4 +910,6 @@ def replay(w):
     _INSTS, _THOROUGH = insts, True
     part = WPart()
     _eval_both_modes(part, inst, w.get("duration"), True)
+    if inst.kind == "qctx" and w.get("duration"):
+        _eval_both_modes(part, inst, ("ends", (w["duration"],)), False)
     return [v for v in part.flat() if v["site"] == want]
